@@ -1,9 +1,9 @@
-// sched.c -- controlled thread scheduler; interface and semantics are documented in sched.h.
+// vsched.c -- controlled thread scheduler; interface and semantics are documented in vsched.h.
 //
 // Linked with -Wl,--wrap=<sym> for every symbol in SCHED_WRAPPED. In a controlled run exactly one logical thread
 // runs at a time; all scheduler state is only touched by the thread that holds the baton, so it needs no lock.
 #define _GNU_SOURCE
-#include "sched.h"
+#include "vsched.h"
 #include <pthread.h>
 #include <semaphore.h>
 #include <errno.h>
